@@ -3,6 +3,7 @@ package main
 import (
 	"errors"
 	"fmt"
+	"math"
 	"math/rand"
 	"sort"
 	"strconv"
@@ -617,6 +618,11 @@ func driveLRU(opt *Options) error {
 		nilDelete := t%11 == 10
 		c := caps[rnd.Intn(len(caps))]
 		steps := steps
+		unbounded := t%20 == 9 && opt.Extra["caps"] == ""
+		if unbounded {
+			// "unbounded", as users write it: the largest int there is (logged as 2^31-1: nothing is ever evicted either way)
+			c = math.MaxInt
+		}
 		if t%20 == 19 && opt.Extra["caps"] == "" {
 			// capacities beyond anything the model enumerates (internal thresholds, counters): a few long traces
 			c = []int{100, 257, 1000}[rnd.Intn(3)]
@@ -636,7 +642,11 @@ func driveLRU(opt *Options) error {
 		var o lruObj
 		var r *lruRec
 		var cerr error
-		newEv := map[string]any{"op": "New", "cap": c, "nilcreate": nilCreate, "alias": variant == "ecache",
+		logCap := c
+		if logCap > 1<<31-1 {
+			logCap = 1<<31 - 1
+		}
+		newEv := map[string]any{"op": "New", "cap": logCap, "nilcreate": nilCreate, "alias": variant == "ecache",
 			"expirable": variant == "expirable", "nodel": nilDelete, "variant": variant}
 		if p, pv := callPanics(func() { o, r, cerr = newLruObj(variant, c, nilCreate, nilDelete) }); p {
 			newEv["crash"] = "panic: " + firstLine(fmt.Sprint(pv))
@@ -648,7 +658,10 @@ func driveLRU(opt *Options) error {
 		if cerr != nil {
 			continue
 		}
-		nk := c + 1 + rnd.Intn(c+1) // a little to a lot more keys than capacity
+		nk := 40
+		if !unbounded {
+			nk = c + 1 + rnd.Intn(c+1) // a little to a lot more keys than capacity
+		}
 		pFail := []int{0, 5, 20}[rnd.Intn(3)]
 		pStale := []int{5, 30}[rnd.Intn(2)]
 		randPk := func() int {
@@ -696,7 +709,7 @@ func driveLRU(opt *Options) error {
 			alive = emit(s)
 		}
 		// drain: new keys push out everything that is resident, least recently used first
-		for i := 1; i <= c && alive; i++ {
+		for i := 1; i <= c && alive && !unbounded; i++ {
 			s := Step{"op": "GetOrCreate", "pk": float64(lruProbeKey + i)}
 			if variant == "expirable" {
 				s["outs"] = []any{"ok", "ok"}
